@@ -1,5 +1,5 @@
 import QV.C04.Spec
-import QV.C02.LemmasSubset
+import QV.C02.LemmasSubset3
 import QV.Shared.ExprRoundTrip
 /-!
 C04 lemmas (core Lean only): printing fails exactly on placeholders (all 40 kinds, nested bodies included, by
@@ -180,19 +180,19 @@ theorem parsedInstr_of_wellFormed (i : Instruction) (hw : wellFormed i = true)
 
 /-! ## kinds with expressions: read back in normal form -/
 
-/-- the kinds for which the API round trip is proved: the plain kinds and the ones whose only expressions are
-gate parameters / a trailing frame expression -/
-def apiKind : Instruction → Bool
+/-- the ONE-LINE kinds for which the API round trip is proved: the plain kinds and the ones with expressions
+(34 kinds; the shapes of the C02 known finding `number-then-name-i` excluded) -/
+def apiLineKind : Instruction → Bool
   | .gate _ | .setFrequency _ | .setPhase _ | .setScale _ | .shiftFrequency _ | .shiftPhase _
   | .delay _ | .capture _ | .pulse _ => true
   | .call c => chainOk none c.arguments
   | .rawCapture r => r.memoryReference.name != "i"
   | i => plainKind i
 
-/-- what a printed instruction of an `apiKind` parses back to: every expression `e` replaced by `norm e`
+/-- what a printed instruction of an `apiLineKind` parses back to: every expression `e` replaced by `norm e`
 (`QV.ExprPrint.norm`: a negative literal becomes a prefix minus on its magnitude, a complex literal a sum,
 prefix plus disappears — all value-preserving, `QV.ExprRoundTrip.eval_norm`) -/
-def normInstr : Instruction → Instruction
+def normLine : Instruction → Instruction
   | .gate g => .gate { g with parameters := g.parameters.map norm }
   | .setFrequency s => .setFrequency ⟨s.frame, norm s.frequency⟩
   | .setPhase s => .setPhase ⟨s.frame, norm s.phase⟩
@@ -205,8 +205,8 @@ def normInstr : Instruction → Instruction
   | .pulse p => .pulse { p with waveform := normInvocation p.waveform }
   | i => i
 
-theorem slotOf_normInstr (i : Instruction) : slotOf (normInstr i) = slotOf i := by
-  cases i <;> simp [normInstr, slotOf]
+theorem slotOf_normLine (i : Instruction) : slotOf (normLine i) = slotOf i := by
+  cases i <;> simp [normLine, slotOf]
 
 theorem exprOk_finiteLits (e : PExpr) (h : exprOk e = true) : finiteLits e = true := by
   unfold finiteLits
@@ -265,9 +265,9 @@ theorem chainOk_none_of (args : List UnresolvedCallArgument) (h : callNumberThen
     exact ⟨by simp [isRealImm], chainOk_of a rest h⟩
 
 /-- the per-kind lemmas, dispatched for API-built instructions -/
-theorem rt_of_apiKind (F : NumFmt) (d : Nat) (i : Instruction) (hw : wellFormed i = true)
-    (hp : hasPlaceholder i = false) (hk : apiKind i = true) (hn : numTokInstr F i = true)
-    (hd : (toks F i).length ≤ d) : RT F d i (normInstr i) := by
+theorem rt_of_apiLineKind (F : NumFmt) (d : Nat) (i : Instruction) (hw : wellFormed i = true)
+    (hp : hasPlaceholder i = false) (hk : apiLineKind i = true) (hn : numTokInstr F i = true)
+    (hd : (toks F i).length ≤ d) : RT F d i (normLine i) := by
   cases i with
   | gate g =>
     simp only [wellFormed, QV.C04.gateOk, Bool.and_eq_true] at hw
@@ -324,7 +324,7 @@ theorem rt_of_apiKind (F : NumFmt) (d : Nat) (i : Instruction) (hw : wellFormed 
         simp [callArgOkP, immOk, h1.1, h1.2, h2]
       | _ => rfl
     have := rt_call F d c hok (chainOk_none_of _ hw.2)
-    simpa [normInstr] using this
+    simpa [normLine] using this
   | capture c =>
     simp only [wellFormed, Bool.and_eq_true] at hw
     simp only [hasPlaceholder] at hp
@@ -343,12 +343,12 @@ theorem rt_of_apiKind (F : NumFmt) (d : Nat) (i : Instruction) (hw : wellFormed 
   | _ =>
     all_goals
       first
-      | (simp [apiKind, plainKind] at hk; done)
-      | (exact rt_of_lineKind F d _ (parsedInstr_of_wellFormed _ hw hp (by simpa [apiKind] using hk))
-          (plainKind_provedKind (by simpa [apiKind] using hk)) hn hd)
+      | (simp [apiLineKind, plainKind] at hk; done)
+      | (exact rt_of_lineKind F d _ (parsedInstr_of_wellFormed _ hw hp (by simpa [apiLineKind] using hk))
+          (plainKind_provedKind (by simpa [apiLineKind] using hk)) hn hd)
 
-theorem apiKind_provedKind {i : Instruction} (h : apiKind i = true) : lineKind i = true := by
-  cases i <;> simp_all [apiKind, plainKind, lineKind]
+theorem apiLineKind_lineKind {i : Instruction} (h : apiLineKind i = true) : lineKind i = true := by
+  cases i <;> simp_all [apiLineKind, plainKind, lineKind]
 
 theorem hasPlaceholders_false (L : List Instruction) (h : ∀ i ∈ L, hasPlaceholder i = false) :
     hasPlaceholders L = false := by
@@ -356,5 +356,273 @@ theorem hasPlaceholders_false (L : List Instruction) (h : ∀ i ∈ L, hasPlaceh
   | nil => rfl
   | cons i L ih =>
     simp [hasPlaceholders, h i (by simp), ih (fun j hj => h j (by simp [hj]))]
+
+/-! ## the six definition kinds -/
+
+theorem wellFormeds_eq_all (l : List Instruction) : wellFormeds l = l.all wellFormed := by
+  induction l with
+  | nil => simp [wellFormeds]
+  | cons i l ih => simp [wellFormeds, ih]
+
+theorem hasPlaceholders_eq_any (l : List Instruction) : hasPlaceholders l = l.any hasPlaceholder := by
+  induction l with
+  | nil => simp [hasPlaceholders]
+  | cons i l ih => simp [hasPlaceholders, ih]
+
+/-- a well-formed instruction that may stand in a body is one of the 34 one-line kinds -/
+theorem apiLineKind_of_bodyKind (i : Instruction) (hw : wellFormed i = true) (hb : bodyKind i = true) :
+    apiLineKind i = true := by
+  cases i with
+  | call c =>
+    simp only [wellFormed, Bool.and_eq_true, Bool.not_eq_true'] at hw
+    exact chainOk_none_of _ hw.2
+  | rawCapture r =>
+    simp only [wellFormed, Bool.and_eq_true] at hw
+    exact hw.2
+  | _ => first | rfl | (simp [bodyKind] at hb)
+
+/-- the API round trip is proved for ALL 40 kinds; the one guard beyond `wellFormed`: a DEFWAVEFORM name of the
+form `name` / `name/extension` with non-empty slash-free parts (`wfNameOk`; the constructors do not check it).
+(Bodies of one-line kinds, no known-finding shapes: already part of `wellFormed`.) -/
+def apiKind : Instruction → Bool
+  | .waveformDefinition w => wfNameOk w.name
+  | .frameDefinition _ => true
+  | .calibrationDefinition _ _ => true
+  | .measureCalibrationDefinition _ _ => true
+  | .circuitDefinition _ _ _ _ => true
+  | .gateDefinition _ => true
+  | i => apiLineKind i
+
+/-- what a printed instruction parses back to: every expression `e` replaced by `norm e`, waveform-invocation
+parameters sorted by key -/
+def normInstr : Instruction → Instruction
+  | .waveformDefinition w => .waveformDefinition ⟨w.name, ⟨w.definition.matrix.map norm, w.definition.parameters⟩⟩
+  | .frameDefinition f => .frameDefinition ⟨f.identifier, f.attributes.map normAttr⟩
+  | .calibrationDefinition id body =>
+    .calibrationDefinition { id with parameters := id.parameters.map norm } (body.map normLine)
+  | .measureCalibrationDefinition id body => .measureCalibrationDefinition id (body.map normLine)
+  | .circuitDefinition n ps qs body => .circuitDefinition n ps qs (body.map normLine)
+  | .gateDefinition g => .gateDefinition ⟨g.name, g.parameters, normSpec g.specification⟩
+  | i => normLine i
+
+theorem normInstr_of_apiLineKind (i : Instruction) (h : apiLineKind i = true) : normInstr i = normLine i := by
+  cases i <;> first | rfl | (simp [apiLineKind, plainKind] at h)
+
+/-- normalisation keeps the container key of everything but a DEFCAL with non-normal parameters (the key of a
+calibration CONTAINS its parameter expressions) -/
+theorem slotOf_normInstr (i : Instruction)
+    (h : ∀ id body, i = .calibrationDefinition id body → id.parameters.map norm = id.parameters) :
+    slotOf (normInstr i) = slotOf i := by
+  cases i with
+  | calibrationDefinition id body =>
+    have := h id body rfl
+    simp [normInstr, slotOf, this]
+  | waveformDefinition w => rfl
+  | frameDefinition f => rfl
+  | measureCalibrationDefinition id body => rfl
+  | circuitDefinition n ps qs body => rfl
+  | gateDefinition g => rfl
+  | _ => simp only [normInstr]; exact slotOf_normLine _
+
+theorem body_facts (body : List Instruction) (hw : wellFormeds body = true) (hb : body.all bodyKind = true)
+    (hp : hasPlaceholders body = false) :
+    ∀ i ∈ body, wellFormed i = true ∧ hasPlaceholder i = false ∧ apiLineKind i = true := by
+  rw [wellFormeds_eq_all] at hw
+  rw [hasPlaceholders_eq_any, List.any_eq_false] at hp
+  intro i hi
+  have h1 := List.all_eq_true.mp hw i hi
+  exact ⟨h1, by simpa using hp i hi, apiLineKind_of_bodyKind i h1 (List.all_eq_true.mp hb i hi)⟩
+
+theorem specApiOk_of_wellFormed (spec : GateSpecification) (hw : QV.C04.specOk spec = true)
+    (name : String) (ps : List String) (hp : hasPlaceholder (.gateDefinition ⟨name, ps, spec⟩) = false) :
+    specApiOk spec = true := by
+  cases spec with
+  | matrix rows =>
+    simp only [QV.C04.specOk, Bool.and_eq_true] at hw
+    simp only [specApiOk, Bool.and_eq_true]
+    refine ⟨hw.1, ?_⟩
+    rw [List.all_eq_true]
+    intro r hr
+    exact all_finiteLits r (List.all_eq_true.mp hw.2 r hr)
+  | permutation p =>
+    simp only [QV.C04.specOk, Bool.and_eq_true] at hw
+    exact hw.1
+  | pauliSum s =>
+    simp only [QV.C04.specOk, Bool.and_eq_true] at hw
+    simp only [specApiOk, Bool.and_eq_true]
+    refine ⟨hw.1.2, ?_⟩
+    rw [List.all_eq_true]
+    intro t ht
+    have := List.all_eq_true.mp hw.2 t ht
+    simp only [Bool.and_eq_true] at this ⊢
+    exact ⟨⟨this.1.1, exprOk_finiteLits _ this.1.2⟩, this.2⟩
+  | sequence s =>
+    simp only [QV.C04.specOk, Bool.and_eq_true] at hw
+    simp only [hasPlaceholder] at hp
+    rw [List.any_eq_false] at hp
+    simp only [specApiOk, Bool.and_eq_true]
+    refine ⟨⟨hw.1.1.1, hw.1.2⟩, ?_⟩
+    rw [List.all_eq_true]
+    intro g hg
+    have h1 := List.all_eq_true.mp hw.2 g hg
+    rw [Bool.and_eq_true] at h1
+    have hg1 := h1.1
+    simp only [QV.C04.gateOk, Bool.and_eq_true] at hg1
+    rw [Bool.and_eq_true, Bool.and_eq_true]
+    exact ⟨⟨all_finiteLits _ hg1.1.2, all_noPlaceholder_of _ hg1.2 (by simpa using hp g hg)⟩, h1.2⟩
+
+/-- an API-built instruction of the proved kinds lies in C02's `provedKind` -/
+theorem provedKind_of_api (i : Instruction) (hw : wellFormed i = true) (hp : hasPlaceholder i = false)
+    (hk : apiKind i = true) : provedKind i = true := by
+  have hbody : ∀ body : List Instruction, wellFormeds body = true → body.all bodyKind = true →
+      hasPlaceholders body = false → body.all lineKind = true := by
+    intro body h1 h2 h3
+    rw [List.all_eq_true]
+    intro j hj
+    exact apiLineKind_lineKind (body_facts body h1 h2 h3 j hj).2.2
+  cases i with
+  | waveformDefinition w => rfl
+  | frameDefinition f => rfl
+  | calibrationDefinition id body =>
+    simp only [wellFormed, Bool.and_eq_true] at hw
+    simp only [hasPlaceholder, Bool.or_eq_false_iff] at hp
+    have := hbody body hw.2 hw.1.2 hp.2
+    simp [provedKind, blockKind, defKind, this]
+  | measureCalibrationDefinition id body =>
+    simp only [wellFormed, Bool.and_eq_true] at hw
+    simp only [hasPlaceholder, Bool.or_eq_false_iff] at hp
+    have := hbody body hw.2 hw.1.2 hp.2
+    simp [provedKind, nlKind, this]
+  | circuitDefinition n ps qs body =>
+    simp only [wellFormed, Bool.and_eq_true] at hw
+    simp only [hasPlaceholder] at hp
+    have := hbody body hw.2 hw.1.2 hp
+    simp [provedKind, nlKind, this]
+  | gateDefinition g =>
+    obtain ⟨name, ps, spec⟩ := g
+    simp only [wellFormed, Bool.and_eq_true] at hw
+    have hs := specApiOk_of_wellFormed spec hw.2 name ps hp
+    have : gateSpecKind spec = true := by
+      cases spec with
+      | sequence s =>
+        simp only [specApiOk, Bool.and_eq_true] at hs
+        simp only [gateSpecKind]
+        rw [List.all_eq_true]
+        intro g hg
+        have := List.all_eq_true.mp hs.2 g hg
+        rw [Bool.and_eq_true, Bool.and_eq_true] at this
+        exact this.1.2
+      | _ => rfl
+    simp [provedKind, nlKind, this]
+  | _ =>
+    all_goals
+      exact provedKind_of_lineKind (apiLineKind_lineKind (by simpa [apiKind] using hk))
+
+theorem shapeOk_of_api (F : NumFmt) (i : Instruction) (hw : wellFormed i = true) (hp : hasPlaceholder i = false)
+    (hk : apiKind i = true) : shapeOk F i = true := by
+  cases i with
+  | measureCalibrationDefinition id body =>
+    simp only [wellFormed, Bool.and_eq_true] at hw; exact hw.1.1.2
+  | circuitDefinition n ps qs body =>
+    simp only [wellFormed, Bool.and_eq_true] at hw; exact hw.1.1.2
+  | gateDefinition g =>
+    obtain ⟨name, ps, spec⟩ := g
+    simp only [wellFormed, Bool.and_eq_true] at hw
+    have := specLineList_ne' F spec (specApiOk_of_wellFormed spec hw.2 name ps hp)
+    simpa [shapeOk] using this
+  | _ => rfl
+
+theorem numTok_body (F : NumFmt) (body : List Instruction) (h : numTokInstrs F body = true) :
+    ∀ i ∈ body, numTokInstr F i = true := by
+  rw [numTokInstrs_eq_all] at h
+  exact fun i hi => List.all_eq_true.mp h i hi
+
+theorem rt_of_apiKind_line (F : NumFmt) (d : Nat) (i : Instruction) (hw : wellFormed i = true)
+    (hp : hasPlaceholder i = false) (hl : apiLineKind i = true) (hn : numTokInstr F i = true)
+    (hd : (lineToks F i).length ≤ d) : RTtopL (lineToks F i) d (normInstr i) := by
+  have e := lineToks_of_blockKind F _ (blockKind_of_lineKind (apiLineKind_lineKind hl)) hn
+  rw [e] at hd ⊢
+  rw [normInstr_of_apiLineKind _ hl]
+  exact (rt_of_apiLineKind F d _ hw hp hl hn hd).top.toL
+
+/-- the per-kind lemmas, dispatched for API-built instructions of ALL kinds, for the line tokens -/
+theorem rt_of_apiKind (F : NumFmt) (d : Nat) (i : Instruction) (hw : wellFormed i = true)
+    (hp : hasPlaceholder i = false) (hk : apiKind i = true) (hn : numTokInstr F i = true)
+    (hd : (lineToks F i).length ≤ d) : RTtopL (lineToks F i) d (normInstr i) := by
+  have hpk := provedKind_of_api i hw hp hk
+  have hbodyRT : ∀ body : List Instruction, wellFormeds body = true → body.all bodyKind = true →
+      hasPlaceholders body = false → numTokInstrs F body = true →
+      ∀ d', ∀ j ∈ body, (toks F j).length ≤ d' → RT F d' j (normLine j) := by
+    intro body h1 h2 h3 h4 d' j hj hl
+    obtain ⟨a, b, c⟩ := body_facts body h1 h2 h3 j hj
+    exact rt_of_apiLineKind F d' j a b c (numTok_body F body h4 j hj) hl
+  cases i with
+  | waveformDefinition w =>
+    have e := lineToks_of_blockKind F (.waveformDefinition w) rfl hn
+    rw [e] at hd ⊢
+    simp only [wellFormed, Bool.and_eq_true, Bool.not_eq_true', List.isEmpty_eq_false_iff] at hw
+    simp only [numTokInstr] at hn
+    exact (rt_waveformDefinition_norm F d w hk hw.1.2
+      (fun x hx => exprOk_finiteLits x (List.all_eq_true.mp hw.2 x hx))
+      (fun x hx => List.all_eq_true.mp hn x hx) hd).top.toL
+  | frameDefinition f =>
+    have e := lineToks_of_blockKind F (.frameDefinition f) rfl hn
+    rw [e] at hd ⊢
+    simp only [wellFormed, Bool.and_eq_true, Bool.not_eq_true', List.isEmpty_eq_false_iff, distinctKeys,
+      decide_eq_true_eq] at hw
+    simp only [hasPlaceholder] at hp
+    simp only [numTokInstr] at hn
+    exact (rt_frameDefinition_norm F d f (frameOk_of _ hw.1.1.1 hp) hw.1.1.2 hw.1.2
+      (fun kv hkv => by
+        have := List.all_eq_true.mp hw.2 kv hkv
+        rw [Bool.and_eq_true] at this
+        cases hv : kv.2 with
+        | string s => rfl
+        | expression x =>
+          have h2 := this.2
+          rw [hv] at h2
+          exact exprOk_finiteLits x h2)
+      (fun kv hkv => by
+        have := List.all_eq_true.mp hn kv hkv
+        cases hv : kv.2 with
+        | string s => rfl
+        | expression x => rw [hv] at this; exact this) hd).toL
+  | calibrationDefinition id body =>
+    have hbk : blockKind (.calibrationDefinition id body) = true := by
+      rcases provedKind_cases hpk with h | h
+      · exact h
+      · simp [nlKind] at h
+    have e := lineToks_of_blockKind F _ hbk hn
+    rw [e] at hd ⊢
+    simp only [wellFormed, Bool.and_eq_true, Bool.not_eq_true', List.isEmpty_eq_false_iff] at hw
+    simp only [hasPlaceholder, Bool.or_eq_false_iff] at hp
+    simp only [numTokInstr, Bool.and_eq_true] at hn
+    exact (rt_cal_of F d id body normLine (all_finiteLits _ hw.1.1.1.1.2)
+      (all_noPlaceholder_of _ hw.1.1.1.2 hp.1) hn.1 hw.1.1.2
+      (hbodyRT body hw.2 hw.1.2 hp.2 hn.2) hd).toL
+  | measureCalibrationDefinition id body =>
+    simp only [wellFormed, Bool.and_eq_true, Bool.not_eq_true', List.isEmpty_eq_false_iff] at hw
+    simp only [hasPlaceholder, Bool.or_eq_false_iff] at hp
+    simp only [numTokInstr] at hn
+    exact rt_measureCal_of F d id body normLine (noPlaceholder_of _ hw.1.1.1.1.2 hp.1) hw.1.1.2
+      (hbodyRT body hw.2 hw.1.2 hp.2 hn) hd
+  | circuitDefinition n ps qs body =>
+    simp only [wellFormed, Bool.and_eq_true, Bool.not_eq_true', List.isEmpty_eq_false_iff] at hw
+    simp only [hasPlaceholder] at hp
+    simp only [numTokInstr] at hn
+    have hqv : qs.all (fun s => !isReservedWord s.toList) = true := by
+      rw [List.all_eq_true]
+      intro s hs
+      have := List.all_eq_true.mp hw.1.1.1.2 s hs
+      simp only [identName, Bool.and_eq_true] at this
+      exact this.2
+    exact rt_circuit_of F d n ps qs body normLine hqv hw.1.1.2 (hbodyRT body hw.2 hw.1.2 hp hn) hd
+  | gateDefinition g =>
+    obtain ⟨name, ps, spec⟩ := g
+    simp only [wellFormed, Bool.and_eq_true] at hw
+    simp only [numTokInstr] at hn
+    exact rt_gateDefinition_norm F d ⟨name, ps, spec⟩ (specApiOk_of_wellFormed spec hw.2 name ps hp) hn hd
+  | _ =>
+    all_goals exact rt_of_apiKind_line F d _ hw hp (by simpa [apiKind] using hk) hn hd
 
 end QV.C04
